@@ -146,6 +146,10 @@ def case_strategy(draw, maxdepth):
     c['search'] = draw(st.integers(0, 2)) == 0
     c['sopts'] = draw(st.sampled_from(['', '', 's', 'm', 'sm']))
     c['repl'] = draw(st.sampled_from(['', 'X', '<$0>', '[$1]', '\\$', '$0$0', 'é']))
+    c['seqlane'] = draw(st.booleans())
+    c['seq'] = draw(st.lists(st.tuples(st.integers(0, 3), st.integers(0, 63)), min_size=8, max_size=20))
+    c['bref'] = draw(st.integers(0, 8))
+    c['hand'] = draw(st.integers(0, len(rm.CAPTURE_HAND) - 1))
     return c
 
 def add_sentinel(ast, lang0):
@@ -371,6 +375,10 @@ def check_pattern(c, ex, st_, tier):
     if c['search'] and sentinel is None:
         check_search(c, c['ast'], lang0, ex, st_, subjects, nshort)
 
+    # 7. extension: one caller-owned Match object / one compiled object across a sequence of calls (non-schema dialect, groups capture)
+    if c.get('seqlane'):
+        check_matchseq(c, c['ast'], lang0, ex, st_, subjects, nshort, syms)
+
 # ------------------------------------------------------------------------------------------------------------------
 # extension: non-schema dialect -- search semantics, positions, F/H independence, tokenize / replace / allMatches
 # ------------------------------------------------------------------------------------------------------------------
@@ -513,6 +521,78 @@ def check_search(c, ast, lang_schema, ex, st_, subjects, nshort):
         if xv.unesc(r[2:]) != wantr: raise mk('pattern %r subject %r replacement %r: replace gave %r, splice of the allMatches spans gives %r' % (text, s, c['repl'], xv.unesc(r[2:]), wantr))
 
 # ------------------------------------------------------------------------------------------------------------------
+# extension: capture-group bookkeeping and history independence.  ONE Match object is handed to a sequence of matches() calls on
+# several compiled expressions with different numbers of groups (the generated pattern, the same with a back reference, the same as an
+# optional group followed by a literal and a back reference to it, and a hand-written capture shape); every call is repeated with a
+# fresh Match on the same compiled object and with a fresh Match on a freshly compiled object: verdict and ALL group positions must
+# agree (purely metamorphic -- back references are outside the model).
+# ------------------------------------------------------------------------------------------------------------------
+def run_matchseq(ex, patterns, opts, steps):
+    req = {'kind': 'matchseq', 'np': len(patterns), 'n': len(steps), 'steps': '\n'.join('%d\t%s' % (pi, xv.esc(s)) for pi, s in steps)}
+    for i, (p, o) in enumerate(zip(patterns, opts)): req['pat%d' % i] = xv.esc(p); req['opts%d' % i] = o
+    try:
+        resp = ex.request(req, timeout=int(os.environ.get('C11_TIMEOUT', '40')))
+    except xv.ExecutorDied as e:
+        if e.rc == -9 and 'ERROR: ' not in e.stderr: raise Watchdog()
+        raise
+    lines = [l for l in resp.split('\n') if l]
+    heads = [l for l in lines if l.startswith('C\t')]; rows = [l.split('\t')[1:] for l in lines if l.startswith('S\t')]
+    return heads, rows
+
+def judge_matchseq(patterns, steps, heads, rows):
+    """-> None or a description of the first step whose three results differ"""
+    if len(rows) != len(steps): return 'executor answered %d of %d steps' % (len(rows), len(steps))
+    for i, ((pi, s), (a, b, cc)) in enumerate(zip(steps, rows)):
+        if a != b or b != cc:
+            return ('step %d: pattern %r subject %r: shared Match + shared object %r, fresh Match + shared object %r, fresh Match + fresh object %r '
+                    '(earlier steps: %r)' % (i, patterns[pi], s, a, b, cc, [(patterns[p], t) for p, t in steps[:i]][-3:]))
+    return None
+
+def check_matchseq(c, ast, lang, ex, st_, subjects, nshort, syms):
+    text = rm.render(ast, False)
+    g = rm.count_groups(ast)
+    lit = rm._lit_out(syms[0], False, False)
+    k = 1 + c['bref'] % min(g, 9) if g else 1
+    pats = [text,
+            (text + '\\%d' % k) if g else ('(' + text + ')\\1'),
+            '(' + text + ')?' + lit + '\\1',
+            rm.CAPTURE_HAND[c['hand']][0]]
+    opts = [c['sopts'] + 'H'] * 3 + ['' if c['bref'] % 2 else 'H']
+    short = [s for s in subjects[0:nshort:max(1, nshort // 12)] + subjects[nshort:nshort + 8] if len(s) <= 10]
+    members = [s for s in subjects[nshort:] + subjects[:nshort] if 0 < len(s) <= 6 and not any(ch in lang.unsafe for ch in s) and lang.member(s)][:3]
+    targeted = [syms[0]] + [m + syms[0] + m for m in members] + [m + syms[0] for m in members] + [syms[0] + syms[0]]
+    pools = [short or [''], (short + [m + m for m in members]) or [''], targeted, rm.CAPTURE_HAND[c['hand']][1]]
+    steps = []
+    if members: steps += [(2, members[0] + syms[0] + members[0]), (2, syms[0])]          # group takes part, then is skipped
+    steps += [(3, pools[3][0]), (3, pools[3][1])]
+    steps += [(pi, pools[pi][si % len(pools[pi])]) for pi, si in c['seq']]
+    try:
+        heads, rows = run_matchseq(ex, pats, opts, steps)
+    except Watchdog:
+        st_.inconclusive += 1; return
+    except xv.ExecutorDied as e:
+        raise PropertyFailure({'kind': 'matchseq', 'patterns': pats, 'opts': opts, 'steps': [list(x) for x in steps]}, 'executor died rc=%s\n%s' % (e.rc, e.stderr[-3000:]))
+    for p, h in zip(pats, heads):
+        if h != 'C\tOK':
+            raise PropertyFailure({'kind': 'wellformed', 'pattern': p, 'opts': opts[0]}, 'well-formed pattern %r (non-schema dialect) rejected: %s' % (p, h))
+    st_.labels['matchseq-case'] += 1
+    st_.extra['matchseq_steps'] = st_.extra.get('matchseq_steps', 0) + len(steps)
+    # measured: did the sequence contain a call in which a group index that had been set by an earlier call stays unset?
+    everset = set(); opportunity = False; brefstep = False
+    for (pi, s), row in zip(steps, rows):
+        b = row[1]
+        if b.startswith('1:'):
+            grp = [x.split(',')[0] != '-1' for x in b[2:].split(';')]
+            if any((i in everset) and not on for i, on in enumerate(grp)): opportunity = True
+            everset |= {i for i, on in enumerate(grp) if on}
+            if '\\' in pats[pi] and pi != 0: brefstep = True
+    if opportunity: st_.labels['matchseq:group-unset-after-set'] += 1
+    if brefstep: st_.labels['matchseq:backref-match'] += 1
+    bad = judge_matchseq(pats, steps, heads, rows)
+    if bad:
+        raise PropertyFailure({'kind': 'matchseq', 'patterns': pats, 'opts': opts, 'steps': [list(x) for x in steps]}, bad)
+
+# ------------------------------------------------------------------------------------------------------------------
 def worker(ctx):
     ex = ctx.executor('xv_regex', restart_every=40000)
     st_ = ctx.stats
@@ -568,6 +648,11 @@ def replay(case, ctx):
             return True, 'ok'
         if k == 'tokrep':
             return _replay_tokrep(case, ex)
+        if k == 'matchseq':
+            steps = [tuple(x) for x in case['steps']]
+            heads, rows = run_matchseq(ex, case['patterns'], case['opts'], steps)
+            bad = judge_matchseq(case['patterns'], steps, heads, rows)
+            return (bad is None), (bad or 'ok')
         if k == 'crash':
             call(ex, case.get('req', 'regex'), case['pattern'], case['opts'], case['subjects'], case['mode'],
                  [None if w is None else tuple(w) for w in case['wins']] if case.get('wins') else None, case.get('rep'))
